@@ -87,6 +87,14 @@ def get_repo():
             sys.exit(2)
         os.replace(tmp, out)
     _repo = ast.Repo(out, REPO)
+    # functions that were merely renamed are read under their reference names (vlib/canon.py)
+    from . import canon
+    renames, log = canon.compute_renames(_repo)
+    if renames:
+        data = _repo._data
+        canon.apply_to_ast(data, renames)
+        _repo = ast.Repo(out, REPO, _data=data)
+        _repo.renames, _repo.rename_log = renames, log
     return _repo
 
 
